@@ -216,7 +216,27 @@ def observe(own_extras: dict | None = None) -> dict:
                           for i in wn.ilis())
     except Exception as e:   # noqa: BLE001
         api_ilis = [['!' + type(e).__name__, '~', '~']]
-    return {'api_ilis': api_ilis, 'inst': inst, 'ilis': ilis, 'look': look, 'links': sorted(links),
+    # wn.ilis(status=s) and Wordnet.ili(id): the same inventory, filtered
+    by_status = []
+    try:
+        for s_ in sorted({r[1] for r in api_ilis} | {'presupposed', 'proposed', 'active', 'no-such-status'}):
+            by_status.append([s_, sorted([i.id or '~', i.status,
+                                          i.definition() if i.definition() is not None else '~']
+                                         for i in wn.ilis(status=s_))])
+    except Exception as e:   # noqa: BLE001
+        by_status = [['!' + type(e).__name__, []]]
+    by_id = []
+    try:
+        w_ = wn.Wordnet()
+        for i_ in sorted({r[0] for r in api_ilis if r[0] != '~'} | {'i-none'}):
+            try:
+                x = w_.ili(i_)
+                by_id.append([i_, 'ok', x.id, x.status, x.definition() if x.definition() is not None else '~'])
+            except wn.Error:
+                by_id.append([i_, 'err', '~', '~', '~'])
+    except Exception as e:   # noqa: BLE001
+        by_id = [['!' + type(e).__name__, 'exc', '~', '~', '~']]
+    return {'api_ilis': api_ilis, 'ilis_by_status': by_status, 'ilis_by_id': by_id, 'inst': inst, 'ilis': ilis, 'look': look, 'links': sorted(links),
             'exts': sorted(exts), 'foreign': foreign, 'digests': digests,
             'api': sorted(api),
             'audit': {'fk': fk, 'integrity': integ, 'dangling': cd['dangling'],
